@@ -562,3 +562,55 @@ pub fn generate(seed: u64, count: usize, mut emit: impl FnMut(String, String)) {
         emit(format!("sl {} ; S {}", scenario_text(&sc), sched_text(&r.sched)), format!("ann {} ; {}", r.ann, r.trace.join(" ")));
     }
 }
+
+// ------------------------------------------------------------------ C18: solo reader against scripted values
+//
+// `slx <g0> <period>`: the real `snapshot()` runs alone, at full speed; every load is answered by a
+// script instead of a memory: version = 1; the k-th generation load returns g0 + 2*(k % period)
+// (consecutive values differ when period > 1, so no attempt is ever accepted: a writer that updates
+// continuously); cells return 0. The answer counts the loads by kind until the call returns.
+// C18 quantifies over any writer behaviour, so any script is a legitimate adversary.
+use std::sync::atomic::AtomicU64;
+static SOLO_G0: AtomicU64 = AtomicU64::new(0);
+static SOLO_PERIOD: AtomicU64 = AtomicU64::new(1);
+static SOLO_GEN_LOADS: AtomicU64 = AtomicU64::new(0);
+static SOLO_VER_LOADS: AtomicU64 = AtomicU64::new(0);
+static SOLO_CELL_COPIES: AtomicU64 = AtomicU64::new(0);
+static SOLO_FENCES: AtomicU64 = AtomicU64::new(0);
+const SOLO_LIMIT: u64 = 20_000_000;
+
+fn solo_load(addr: usize, _w: u8, _o: O, real: u64) -> u64 {
+    match addr & 0xfff {
+        12 => { SOLO_VER_LOADS.fetch_add(1, O::Relaxed); 1 }
+        14 => {
+            let k = SOLO_GEN_LOADS.fetch_add(1, O::Relaxed);
+            if k > SOLO_LIMIT { std::panic::panic_any("unbounded"); }
+            (SOLO_G0.load(O::Relaxed) + 2 * (k % SOLO_PERIOD.load(O::Relaxed))) & 0xffff
+        }
+        _ => real,
+    }
+}
+fn solo_store(_a: usize, _w: u8, _o: O, _v: u64) {}
+fn solo_fence(_o: O) { SOLO_FENCES.fetch_add(1, O::Relaxed); }
+fn solo_data_write(_d: usize, _s: &[u8]) {}
+fn solo_data_read(_s: usize, out: &mut [u8]) { SOLO_CELL_COPIES.fetch_add(1, O::Relaxed); for b in out.iter_mut() { *b = 0; } }
+
+pub fn exec_slx(toks: &[&str]) -> String {
+    let g0: u64 = toks[1].parse().unwrap();
+    let period: u64 = toks[2].parse::<u64>().unwrap().max(1);
+    let path = format!("{}/slx-shm", scratch_dir());
+    write_initial_file(&path, &format!("valid {} 90", if g0 == 0 { 2 } else { g0 }));
+    let c = CString::new(path).unwrap();
+    let mut reader = match ShmReader::new(&c) { Ok(r) => r, Err(_) => return "open-failed".into() };
+    SOLO_G0.store(g0, O::Relaxed); SOLO_PERIOD.store(period, O::Relaxed);
+    for a in [&SOLO_GEN_LOADS, &SOLO_VER_LOADS, &SOLO_CELL_COPIES, &SOLO_FENCES] { a.store(0, O::Relaxed); }
+    *verif_shim::HOOKS.write().unwrap() = Some(Hooks { load: solo_load, store: solo_store, fence: solo_fence, data_write: solo_data_write, data_read: solo_data_read, point: h_point });
+    let r = guarded(std::panic::AssertUnwindSafe(|| reader.snapshot().map(|c| cells_of_record(c))));
+    *verif_shim::HOOKS.write().unwrap() = None;
+    let counts = format!("v{} g{} c{} f{}", SOLO_VER_LOADS.load(O::Relaxed), SOLO_GEN_LOADS.load(O::Relaxed), SOLO_CELL_COPIES.load(O::Relaxed), SOLO_FENCES.load(O::Relaxed));
+    match r {
+        Ok(Ok(c)) => format!("ok {} {}", c.iter().map(|x| x.to_string()).collect::<Vec<_>>().join(","), counts),
+        Ok(Err(_)) => format!("err {}", counts),
+        Err(()) => format!("unbounded {}", counts),
+    }
+}
